@@ -460,11 +460,13 @@ inductive BindSet | none | core | rdflib
 
 def someKeys (l : List (Str × Str)) : List (Option Str × Str) := l.map (fun pn => (some pn.1, pn.2))
 
-/-- `NamespaceManager.__init__(graph, bind_namespaces)` -/
+/-- `NamespaceManager.__init__(graph, bind_namespaces)`: `self.bind(prefix, ns, override=False)` over
+    the default tables (since `fix: a NamespaceManager created on a store that already has bindings
+    does not rebind their namespaces to the default prefixes`; before it the binds were overriding) -/
 def Mgr.init (st : Store) : BindSet → Store × Mgr × Out
   | .none => (st, Mgr.empty, .unit)
-  | .core => bindAll true (someKeys nsCore) st Mgr.empty
-  | .rdflib => bindAll true (someKeys nsRdflib ++ someKeys nsCore) st Mgr.empty
+  | .core => bindAll false (someKeys nsCore) st Mgr.empty
+  | .rdflib => bindAll false (someKeys nsRdflib ++ someKeys nsCore) st Mgr.empty
 
 /-- the Turtle parser's `_bindings` dict (later `@prefix` for the same prefix wins, position of
     the first), then `graph.bind(prefix, namespace)` for each -/
